@@ -14,6 +14,7 @@ import (
 	"verif/harness/sym"
 
 	_ "verif/harness/all"
+	_ "verif/harness/alltag"
 )
 
 type rec struct {
